@@ -327,3 +327,32 @@ let () =
   Hashtbl.replace table "robust" op_robust;
   Hashtbl.replace classifiers "cli" classify_cli;
   Hashtbl.replace classifiers "robust" classify_robust
+
+(* ---------- S-set ---------- *)
+let sop_of (x : sx) : sop =
+  let b a = (atom a = "1") in
+  match x with
+  | L [A "ins"; i; e] -> SInsert (b i, nat_atom e)
+  | L [A "uni"; i; j] -> SUnion (b i, b j)
+  | L [A "int"; i; j] -> SIntersect (b i, b j)
+  | L [A "cmp"; i; j] -> SComplement (b i, b j)
+  | L [A "emp"; i] -> SEmpty (b i)
+  | L [A "univ"; i] -> SUniverse (b i)
+  | L [A "has"; i; e] -> SContains (b i, nat_atom e)
+  | _ -> raise (Bad "sop")
+let show_answers l = "(" ^ String.concat " " (List.filter_map (function Some true -> Some "1" | Some false -> Some "0" | None -> None) l) ^ ")"
+let op_set (args : sx) : string =
+  match args with
+  | L [bits; L ops] ->
+      let (ans, (b0, b1)) = set_run (nat_atom bits) (List.map sop_of ops) in
+      "(ok " ^ show_answers ans ^ " " ^ bdd_str b0 ^ " " ^ bdd_str b1 ^ ")"
+  | _ -> raise (Bad "set")
+let classify_set (args : sx) (real : string) (_ : string) : string =
+  if real = "(panic)" then "panic"
+  else match args, (try Some (parse_sx real) with Bad _ -> None) with
+    | L [_; L ops], Some (L [A "ok"; L ans; _; _]) ->
+        let reference = show_answers (set_ref (List.map sop_of ops)) in
+        let got = "(" ^ String.concat " " (List.map atom ans) ^ ")" in
+        if got = reference then "holds" else "member"
+    | _ -> "unclassified"
+let () = Hashtbl.replace table "set" op_set; Hashtbl.replace classifiers "set" classify_set
